@@ -10,6 +10,7 @@ import (
 	"path/filepath"
 	"runtime"
 	"sort"
+	"strconv"
 	"strings"
 	"sync"
 	"sync/atomic"
@@ -74,11 +75,25 @@ func (nt *Net) Addrs() []string {
 	return a
 }
 
-// Dial is the neutrino.Config.Dialer of the simulated network.
+// Dial is the neutrino.Config.Dialer of the simulated network.  An address
+// that is not a *net.TCPAddr is dialled the way net.Dial would: its string
+// form "host:port" is resolved with Resolver.
 func (nt *Net) Dial(a net.Addr) (net.Conn, error) {
 	ta, ok := a.(*net.TCPAddr)
 	if !ok {
-		return nil, errors.New("netsim: not a TCP address")
+		host, port, err := net.SplitHostPort(a.String())
+		if err != nil {
+			return nil, errors.New("netsim: not a TCP address")
+		}
+		ips, err := Resolver(host)
+		if err != nil {
+			return nil, err
+		}
+		p, err := strconv.Atoi(port)
+		if err != nil {
+			return nil, errors.New("netsim: not a TCP address")
+		}
+		ta = &net.TCPAddr{IP: ips[0], Port: p}
 	}
 	nt.mu.Lock()
 	n := nt.nodes[ta.String()]
@@ -102,9 +117,29 @@ func (nt *Net) Shutdown() {
 	}
 }
 
-// Resolver is the neutrino.Config.NameResolver of the simulated network.
+// hosts is the name table of the simulated network (process wide: scenarios
+// running concurrently use distinct names).
+var (
+	hostsMu sync.Mutex
+	hosts   = map[string]net.IP{}
+)
+
+// RegisterHost makes Resolver answer ip for the host name.
+func RegisterHost(name string, ip net.IP) {
+	hostsMu.Lock()
+	hosts[name] = ip
+	hostsMu.Unlock()
+}
+
+// Resolver is the neutrino.Config.NameResolver of the simulated network: IP
+// literals resolve to themselves, registered host names to their address.
 func Resolver(host string) ([]net.IP, error) {
 	ip := net.ParseIP(host)
+	if ip == nil {
+		hostsMu.Lock()
+		ip = hosts[host]
+		hostsMu.Unlock()
+	}
 	if ip == nil {
 		return nil, errors.New("netsim: cannot resolve " + host)
 	}
